@@ -220,6 +220,42 @@ pub fn c03_rates(_m: &mut Mon, ctx: &StepCtx, stats: &mut Stats, out: &mut Vec<V
         }
         _ => {}
     }
+    // the coin value an operation prices is what moves between / into the pools
+    if let Some(qs) = ctx.post.hub.as_ref().and_then(|h| h.state.as_ref()) {
+        let (pb, pst) = (ps.total_bond_bsei_amount.u128(), ps.total_bond_stsei_amount.u128());
+        let (qb, qst) = (qs.total_bond_bsei_amount.u128(), qs.total_bond_stsei_amount.u128());
+        let mut expect: Option<(u128, u128, &'static str)> = None;
+        match ctx.top() {
+            Some((HUB, "bond")) => expect = Some((pb + ctx.out.unwrap().calls[0].funds_of(DENOM), pst, "bond")),
+            Some((HUB, "bond_for_st_sei")) => expect = Some((pb, pst + ctx.out.unwrap().calls[0].funds_of(DENOM), "bond_for_st_sei")),
+            _ => {}
+        }
+        for r in hub_receives(ctx) {
+            if r.hook == "convert" {
+                match r.token {
+                    Some(Tok::St) => {
+                        let coin = mul_rate(r.amount, rs).unwrap_or(0);
+                        expect = Some((pb + coin, pst.saturating_sub(coin), "convert_st_to_b"));
+                    }
+                    Some(Tok::B) => {
+                        // the fee (C05) stays with the bSei pool: the moved value is bounded by the no-fee value
+                        let coin_max = mul_rate(r.amount, rb).unwrap_or(0);
+                        let moved = pb.saturating_sub(qb);
+                        if moved > coin_max || qst != pst + moved {
+                            viol(out, "C03", "convert_moves_priced_value_between_pools", ctx.idx, "hub.convert_bsei_stsei:pool_delta", format!("convert of {} bSei moved pools ({},{}) -> ({},{}), priced value at most {}", r.amount, pb, pst, qb, qst, coin_max));
+                        }
+                    }
+                    None => {}
+                }
+            }
+        }
+        if let Some((eb, es, what)) = expect {
+            stats.check("c03_pool_delta");
+            if (qb, qst) != (eb, es) {
+                viol(out, "C03", "priced_value_is_credited_to_its_pool", ctx.idx, &format!("hub.{}:pool_delta", what), format!("{}: pools ({},{}) -> ({},{}) but the priced value gives ({},{})", what, pb, pst, qb, qst, eb, es));
+            }
+        }
+    }
     // a closing batch is priced at backing / (supply + requests) of that very moment
     if let Some(post) = &ctx.post.hub {
         if post.history.len() == pre.history.len() + 1 {
